@@ -86,6 +86,7 @@ type world struct {
 	mainDone      bool
 	limitSeen     bool
 	failedAtEntry bool
+	idChanged     string
 }
 
 var w *world
@@ -111,6 +112,7 @@ func (x *world) body(t *f1testing.T) {
 		x.over = true
 	}
 	x.ids = append(x.ids, t.Iteration)
+	myIdx := len(x.ids) - 1
 	switch x.c.gate {
 	case "all", "all-open-after-ticks":
 		vrt.WaitUntil("gate", func() bool { return x.gateOpen.Peek() })
@@ -123,6 +125,9 @@ func (x *world) body(t *f1testing.T) {
 	}
 	if x.c.bodyDur > 0 {
 		vtime.Sleep(x.c.bodyDur)
+	}
+	if t.Iteration != x.ids[myIdx] {
+		x.idChanged = fmt.Sprintf("an iteration entered with id %s and saw %q before returning", x.ids[myIdx], t.Iteration)
 	}
 	if track {
 		vrt.Touch(&x.flight, true, 2)
@@ -405,6 +410,9 @@ func oracle(c cfg, o *vrt.Outcome) {
 			} else if sure && !x.limitSeen {
 				o.Fail("C03/limit-flag", "false", "MaxIterationsReached() is false although the limit stopped the run")
 			}
+		}
+		if x.idChanged != "" {
+			o.Fail("C03/ids", "changed-while-running", x.idChanged)
 		}
 		ids := append([]string(nil), x.ids...)
 		nums := make([]int, 0, len(ids))
